@@ -10,6 +10,7 @@ import (
 	"sort"
 	"strings"
 	"sync"
+	"sync/atomic"
 	"time"
 
 	"github.com/relab/gorums"
@@ -67,9 +68,10 @@ type World struct {
 	byReq   map[proto.Message]*Call
 	hrecs   []*HandlerRec
 
-	settling bool // read by gate predicates (driver goroutine / under simrt lock)
-	phase    string
-	start    time.Time
+	settling  bool // read by gate predicates (driver goroutine / under simrt lock)
+	settlingA atomic.Bool
+	phase     string
+	start     time.Time
 
 	threadsDone int
 	threadsAll  int
@@ -79,17 +81,17 @@ type World struct {
 	probes map[string]int // "rare condition was hit" counters
 	rules  map[string]*RuleStat
 
-	trace    []string
-	chooser  Chooser
-	lastTask string
-	simTime  time.Duration
-	faults   map[string]int
-	cancels  []*cancelAct
-	pending  []*worldAct // one-shot harness actions (close manager, crash, ...)
-	sigParts []string
-	stuck    string
-	idleTicks int
-	idleRun   int
+	trace       []string
+	chooser     Chooser
+	lastTask    string
+	simTime     time.Duration
+	faults      map[string]int
+	cancels     []*cancelAct
+	pending     []*worldAct // one-shot harness actions (close manager, crash, ...)
+	sigParts    []string
+	stuck       string
+	idleTicks   int
+	idleRun     int
 	mainEndStep int
 	internal    string
 }
@@ -128,17 +130,18 @@ type StreamRec struct {
 
 // Mgr is one client manager.
 type Mgr struct {
-	Idx      int
-	Name     string
-	mgr      *zsvc.Manager
-	cfgs     []*CfgRec
-	qspec    *puppetQSpec
-	ready    bool
-	closed   bool
-	CloseSeq uint64 // seq when Close returned
+	Idx            int
+	Name           string
+	mgr            *zsvc.Manager
+	cfgs           []*CfgRec
+	qspec          *puppetQSpec
+	ready          bool
+	readyA         atomic.Bool // same as ready, for gate predicates evaluated by other goroutines
+	closed         bool
+	CloseSeq       uint64 // seq when Close returned
 	closeInvokedAt time.Duration
-	nodeSrv  map[uint32]int
-	rawNodes []*gorums.RawNode // captured by the setup task (the driver must not call into the library)
+	nodeSrv        map[uint32]int
+	rawNodes       []*gorums.RawNode // captured by the setup task (the driver must not call into the library)
 }
 
 // CfgRec is one configuration of a manager.
@@ -329,6 +332,9 @@ func (w *World) setupManager(m *Mgr) {
 	m.mgr = zsvc.NewManager(w.managerOptions(m)...)
 	m.qspec = &puppetQSpec{w: w, m: m}
 	m.nodeSrv = map[uint32]int{}
+	for si := 0; si < w.Cfg.NServers; si++ {
+		m.nodeSrv[nodeID(si)] = si
+	}
 	for ci, members := range w.Prog.Configs[m.Idx] {
 		nm := map[string]uint32{}
 		var srvs []int
@@ -358,6 +364,7 @@ func (w *World) setupManager(m *Mgr) {
 		m.rawNodes = append(m.rawNodes, n.RawNode)
 	}
 	m.ready = true
+	m.readyA.Store(true)
 	w.ev("manager-ready", "mgr=%d cfgs=%d", m.Idx, len(m.cfgs))
 }
 
